@@ -31,6 +31,14 @@ ENV = {"ASAN_OPTIONS": "detect_leaks=1:abort_on_error=0:exitcode=99:allocator_ma
 
 ALLOC_FRAMES = {"should_fail", "vf_malloc", "vf_calloc", "vf_realloc", "vf_strdup", "vf_strndup", "yr_malloc", "yr_calloc", "yr_realloc",
                 "yr_strdup", "yr_strndup", "backtrace", "ledger_add", "fp_backtrace", "sitemap_note"}
+LIGHT_QUICK = {"scan_mod_pe_signed", "scan_mod_elf_telfhash"}
+HUGE = 20000          # above this many allocations a scenario is sampled in the thorough tier too
+# listed call sites no scenario reaches: why (keyed by file and enclosing function / callee, not by line)
+UNREACHED_WHY = {
+    ("object.c", "yr_object_dict_set_item", "yr_realloc"): "growth of a dictionary beyond its first 64 keys: no module fills a dictionary that large from the sample files (pe.version_info is the only candidate)",
+    ("modules/dotnet/dotnet.c", "parse_signature_type", "yr_malloc"): "ELEMENT_TYPE_ARRAY (multi-dimensional array with sizes / lower bounds) in a method signature: no .NET sample in tests/data has one; needs crafted metadata",
+    ("simple_str.c", "sstr_new", "yr_malloc"): "sstr_new(s) with s != NULL: every caller in the library passes NULL (dead branch)",
+}
 HELPER_FILES = ("arena.c", "notebook.c", "hash.c", "stack.c", "mem.c", "sizedstr.c", "h_oom.c", "object.c", "strutils.c")
 
 
@@ -168,6 +176,37 @@ rule e5 { strings: $e = /ab.{1,3}ef/ $f = { 65 66 } condition: $e and $f }'''
     sc.append(("scan_mod_pe_dll", "rscan", MODRULES["pe"], ["file=" + os.path.join(d, "mtxex.dll")]))
     sc.append(("scan_mod_elf32", "rscan", MODRULES["elf"], ["blob=elf32"]))
     sc.append(("scan_mod_macho_thin", "rscan", MODRULES["macho"], ["blob=macho"]))
+    # --- allocator call sites that the scenarios above do not reach
+    sc.append(("scan_mod_elf_telfhash", "rscan", 'import "elf"\nrule a { condition: elf.telfhash() != "x" }\nrule b { condition: elf.import_md5() != "x" }',
+               ["file=" + os.path.join(d, "elf_with_imports")]))
+    sc.append(("scan_mod_math_strings", "rscan", 'import "math"\nrule a { condition: math.entropy("abcabc") >= 0.0 and math.mean("abc") > 0.0 and math.deviation("abc", 1.0) >= 0.0 and '
+               'math.serial_correlation("abcd") >= -1.0 and math.monte_carlo_pi("abcdefghijkl") >= 0.0 }', []))
+    sc.append(("scan_mod_console_long", "rscan", 'import "console"\nrule a { condition: console.log("%s") and console.log("msg: ", "%s") and console.hex("h: ", 123456) and '
+               'console.log(1.5) and console.log("f: ", 2.5) and console.hex(255) and console.log("i: ", 7) }' % ("A" * 300, "B\\x00\\x01" * 40), []))
+    # a signed PE (authenticode parser; imports by ordinal) and a .NET assembly with methods, parameters and generic parameters
+    sc.append(("scan_mod_pe_signed", "rscan", 'import "pe"\nrule a { condition: pe.number_of_signatures > 0 and pe.is_signed }\nrule b { condition: pe.signatures[0].subject != "x" }',
+               ["file=" + os.path.join(d, "079a472d22290a94ebb212aa8015cdc8dd28a968c6b4d3b88acdd58ce2d3b885")]))
+    sc.append(("scan_mod_dotnet_methods", "rscan", 'import "dotnet"\nrule a { condition: dotnet.is_dotnet and dotnet.number_of_classes > 0 and dotnet.classes[0].number_of_methods >= 0 }',
+               ["file=" + os.path.join(d, "756684f4017ba7e931a26724ae61606b16b5f8cc84ed38a260a34e50c5016f59")]))
+    # sources given as files: yr_compiler_add_file / yr_compiler_add_fd with the library's default include callback; an atom quality table
+    from vf import build as _vb
+    fdir = os.path.join(_vb.BUILD, "c16files")
+    os.makedirs(fdir, exist_ok=True)
+    for nm, txt in (("inc_a.yar", 'rule inc_a { strings: $a = "hello" condition: $a }\n'), ("top.yar", 'include "inc_a.yar"\nrule top { condition: inc_a and filesize > 3 }\n')):
+        pth = os.path.join(fdir, nm)
+        if not os.path.exists(pth) or open(pth).read() != txt:
+            open(pth, "w").write(txt)
+    aq = b"".join(a + bytes([q]) for a, q in sorted((bytes([97 + i, 98 + i, 99, 100]), 200 - i) for i in range(12)))
+    if not os.path.exists(os.path.join(fdir, "aqt.bin")) or open(os.path.join(fdir, "aqt.bin"), "rb").read() != aq:
+        open(os.path.join(fdir, "aqt.bin"), "wb").write(aq)
+    T1 = 'rule t { strings: $a = "abcdefgh" $b = /hel+o/ condition: $a or $b }'
+    sc.append(("compile_file_definc", "compile", T1, ["src=file", "definc=1", "path=" + os.path.join(fdir, "top.yar")]))
+    sc.append(("compile_fd_definc", "compile", T1, ["src=fd", "definc=1", "path=" + os.path.join(fdir, "top.yar")]))
+    sc.append(("compile_atom_table", "compile", T1, ["aqt=" + os.path.join(fdir, "aqt.bin")]))
+    sc.append(("rules_stats", "stats", mixed, []))
+    sc.append(("profiling_info", "profinfo", T1, []))
+    # another process (a child executing /bin/sleep): proc.c / proc/linux.c; a rule without strings keeps the result independent of the child's memory
+    sc.append(("scan_proc", "pscan", 'rule p { condition: true }', []))
     sc.append(("rdefs", "rdefs", EXT, EXTS))
     sc.append(("rdefs_twice", "rdefs", EXT, EXTS + ["twice=1"]))
     sc.append(("sdefs", "sdefs", EXT, EXTS))
@@ -422,6 +461,14 @@ def run(tier, replay=None):
         if replay and "k" in replay:
             ks1 = [replay["k"]] if replay.get("mode", 1) == 1 else []
             ks2 = [replay["k"]] if replay.get("mode", 1) == 2 else []
+        elif tier == "quick" and N > HUGE:
+            # tens of thousands of allocations per case: the quick tier fails the FIRST allocation of every (call site, caller) pair only
+            ks1 = sorted({g[0] for g in site_ks.get(s[0], {}).values()})
+            ks2 = []
+        elif tier == "quick" and s[0] in LIGHT_QUICK:
+            # module scenarios added for call-site coverage: first/middle/last of every (call site, caller) pair + a coarse stride
+            ks1 = sorted({k for g in site_ks.get(s[0], {}).values() for k in g} | set(range(1, N + 1, max(1, N // 30))) | {N})
+            ks2 = sorted(set(range(1, N + 1, max(1, N // 10))))
         elif tier == "quick" and N > 300 and not (s[0].startswith("compile_small_") and N <= 700):
             stride = max(1, N // 110)
             ks1 = sorted(set(list(range(1, 40)) + list(range(1, N + 1, stride)) + [r.randint(1, N) for _ in range(60)] + [N - 2, N - 1, N]))
@@ -429,6 +476,11 @@ def run(tier, replay=None):
             directed = sorted({k for g in site_ks.get(s[0], {}).values() for k in g})
             ks1 = sorted(set(ks1) | set(directed))
             ks2 = sorted(set(ks2) | {g[0] for g in site_ks.get(s[0], {}).values()})
+        elif N > HUGE:
+            # a scenario with tens of thousands of allocations is sampled in every tier (stride + every (call site, caller) pair)
+            directed = sorted({k for g in site_ks.get(s[0], {}).values() for k in g})
+            ks1 = sorted(set(range(1, N + 1, max(1, N // 1000))) | set(directed) | {N - 1, N} | {r.randint(1, N) for _ in range(200)})
+            ks2 = sorted(set(range(1, N + 1, max(1, N // 100))) | {g[0] for g in site_ks.get(s[0], {}).values()})
         else:
             ks1 = list(range(1, N + 1))
             ks2 = list(range(1, N + 1)) if tier != "quick" else sorted(set([r.randint(1, max(N, 1)) for _ in range(40)] + list(range(1, N + 1, max(1, N // 30)))))
@@ -437,6 +489,8 @@ def run(tier, replay=None):
         planned[s[0]] = set(ks1) | set(ks2)
         lines = [case_line("%s.1.%d" % (s[0], k), s, 1, k) for k in ks1] + [case_line("%s.2.%d" % (s[0], k), s, 2, k) for k in ks2]
         per = 60 if s[1] != "init" else 25
+        if N > HUGE:
+            per = 12
         for i in range(0, len(lines), per):
             chunks.append((s, lines[i:i + per]))
     with ThreadPoolExecutor(16) as ex:
@@ -569,7 +623,17 @@ def run(tier, replay=None):
                                                                                   a["f"].get("text", "")[:110]))
     # static call sites of the allocator (translator) against the call sites the scenarios reach
     from translators import oomsites as tos
-    listed = tos.alloc_sites(core.REPO)
+    listed5 = tos.alloc_sites(core.REPO, with_guards=True)
+    from vf import build as vb
+    defined = set(re.findall(r"-D(\w+)", vb.DEFS + " " + " ".join(vb.FLAVOURS.values())))
+    not_built = []
+    listed = []
+    for f_, fn_, ln_, callee_, guards in listed5:
+        off = [g for g in guards if re.fullmatch(r"!?\w+", g) and ((not g.startswith("!") and g not in defined) or (g.startswith("!") and g[1:] in defined))]
+        if off:
+            not_built.append("%s:%d %s (%s): inside #if %s, which this build configuration does not satisfy" % (f_, ln_, fn_, callee_, " && ".join(guards)))
+        else:
+            listed.append((f_, fn_, ln_, callee_))
     by_file = {}
     for f_, fn_, ln_, callee_ in listed:
         by_file.setdefault(f_, []).append(ln_)
@@ -597,8 +661,8 @@ def run(tier, replay=None):
                     failed_at.add((f_, max(cands)))
     never = [(f_, fn_, ln_, c_) for f_, fn_, ln_, c_ in listed if (f_, ln_) not in hit]
     not_failed = [(f_, fn_, ln_, c_) for f_, fn_, ln_, c_ in listed if (f_, ln_) in hit and (f_, ln_) not in failed_at]
-    site_cov = {"listed": len(listed), "reached": len(listed) - len(never), "failed_by_some_case": len(failed_at),
-                "listed_never_reached": ["%s:%d %s (%s)" % (f_, ln_, fn_, c_) for f_, fn_, ln_, c_ in never],
+    site_cov = {"listed": len(listed5), "not_built": not_built, "built": len(listed), "reached": len(listed) - len(never), "failed_by_some_case": len(failed_at),
+                "listed_never_reached": ["%s:%d %s (%s): %s" % (f_, ln_, fn_, c_, UNREACHED_WHY.get((f_, fn_, c_), "no scenario yet")) for f_, fn_, ln_, c_ in never],
                 "reached_but_not_failed_in_this_run": ["%s:%d %s" % (f_, ln_, fn_) for f_, fn_, ln_, c_ in not_failed],
                 "reached_through_macros_or_unlisted": sorted(unlisted)[:40]}
     nontrivial = sum(v for k, v in rc_hist.items() if k != "not-reached")
@@ -613,6 +677,7 @@ def run(tier, replay=None):
     core.handle_broken_proof(chk, lres, found)
     chk.assumptions += ["only allocations made through libyara's allocator (yr_malloc & co.) are failed; flex/bison buffers, OpenSSL, authenticode-parser, tlsh call libc directly",
                         "quick tier samples k for scenarios with more than 300 allocations (stride + random + first 40 + last 3 + first/middle/last allocation of every (call site, caller) pair), thorough enumerates every k",
-                        "%d of %d static allocator call sites in the built library sources are reached by no scenario (listed in coverage.allocator_call_sites.listed_never_reached)" % (len(never), len(listed)),
-                        "known findings are keyed by (kind, allocation call site, calling context), not by scenario or k"]
+                        "%d of %d static allocator call sites compiled in this configuration are reached by no scenario (listed in coverage.allocator_call_sites.listed_never_reached)" % (len(never), len(listed)),
+                        "known findings are keyed by (kind, allocation call site, calling context), not by scenario or k",
+                        "scenarios with more than %d allocations (the .NET sample with methods: ~130000) are sampled in every tier: thorough = stride N/1000 + 200 random + first/middle/last of every (call site, caller) pair; quick = the first allocation of every pair" % HUGE]
     return chk.finish("fault_enumeration")
